@@ -1,46 +1,61 @@
 (* Model/Store.v -- C06 (d): who writes where.  Python object identity is modelled explicitly: every
-   array *reference* occurring in ropt/ensemble_evaluator/_evaluator_results.py and in the construction of
-   Function/GradientEvaluations has a name ([ref]); an environment maps a reference to the *buffer* it
-   points into (named by the reference that allocated it) and the buffer's owner.  The three
-   _get_*_results functions, _transform_evaluator_result, _propagate_nan_values and the
-   *Evaluations.__post_init__ copies are programs over seven operations; running a history of calls
-   yields the list of events (writes, attribute assignments, deliveries) that the run-time monitor of
-   the harness observes on the real objects.  Executable definitions only. *)
+   array *reference* occurring in ropt/ensemble_evaluator/_evaluator_results.py, in the construction of
+   Function/GradientEvaluations and in their transform_from_optimizer methods has a name ([ref]); an
+   environment maps a reference to the *buffer* it points into (named by the reference that allocated it)
+   and the buffer's owner.  Three parties own memory: the user evaluator (the arrays of the result object it
+   returns, possibly the same on every call), the caller of EnsembleEvaluator.calculate (the variable
+   vector it passes and keeps re-using) and ropt.  The three _get_*_results functions,
+   _transform_evaluator_result, _propagate_nan_values, the *Evaluations.__post_init__ copies and the
+   user-domain copies made for event handlers are programs over eleven operations; running a history of
+   calls yields the list of events (writes, attribute assignments, deliveries) that the run-time monitor
+   of the harness observes on the real objects.  Executable definitions only. *)
 From Coq Require Import List Bool Arith.
 Import ListNotations.
 
-Inductive owner := Evaluator | Ropt.
-Inductive field := FObj | FCon | FInfo.          (* objectives, constraints, evaluation_info arrays *)
+Inductive owner := Evaluator | Caller | Ropt.
+(* objectives, constraints, evaluation_info arrays; variables, perturbed variables *)
+Inductive field := FObj | FCon | FInfo | FVar | FPert.
 
 (* array references; c = index of the calculate() call, b = block (batch member / function or gradient part) *)
 Inductive ref :=
 | EvalArr (f : field)                 (* attribute of the object the evaluator returned (same buffers on every call) *)
+| CallerVec                           (* the variable vector / matrix handed to calculate() (same buffer on every call) *)
 | Trans (c : nat) (f : field)         (* field of the result of _transform_evaluator_result *)
-| Piece (c : nat) (f : field) (b : nat)   (* np.vsplit / [:R] / [R:] slice *)
+| Piece (c : nat) (f : field) (b : nat)   (* np.vsplit / [:R] / [R:] / variables[idx, :] slice *)
 | Work (c : nat) (f : field) (b : nat)    (* local variable of _propagate_nan_values after .copy() *)
 | Shaped (c : nat) (f : field) (b : nat)  (* after reshape / dict comprehension *)
-| Res (c : nat) (f : field) (b : nat).    (* the array stored in the delivered *Evaluations object *)
+| Res (c : nat) (f : field) (b : nat)     (* the array stored in the delivered *Evaluations object *)
+| Pert (c : nat)                      (* the result of _perturb_variables *)
+| Req (c : nat)                       (* the variable matrix handed to the evaluator *)
+| TPiece (c : nat) (f : field) (b : nat)  (* constructor argument inside transform_from_optimizer *)
+| TRes (c : nat) (f : field) (b : nat).   (* the array stored in the user-domain copy of a delivered result *)
 
 Inductive obj := EvalObj | TransObj (c : nat).   (* the evaluator's result object / ropt's own EvaluatorResult *)
 
 Inductive op :=
 | Copy (src dst : ref)          (* dst = src.copy(), _immutable_copy(src): fresh buffer owned by ropt *)
-| Fresh (src dst : ref)         (* dst = transform.to_optimizer(src): arithmetic allocates a fresh buffer *)
+| Fresh (src dst : ref)         (* dst = f(src) by arithmetic / np.repeat / np.vstack: a fresh buffer *)
 | View (src dst : ref)          (* dst = src / src[a:b] / src.reshape(..): the same buffer *)
 | WriteRows (a : ref)           (* a[failures, :] = nan: in-place write by ropt *)
 | NewObj (o : obj)              (* construction of an object by ropt *)
 | SetAttr (o : obj) (f : field) (* o.f = ... by ropt *)
 | Deliver (a : ref)             (* a is part of a result handed to the user *)
-| EvalWrite (f : field).        (* the evaluator overwrites its own buffer (reuse between calls) *)
+| GiveEval (a : ref)            (* a is passed to the evaluator, which may keep the reference *)
+| EvalWrite (f : field)         (* the evaluator overwrites its own buffer (reuse between calls) *)
+| EvalWriteRef (a : ref)        (* the evaluator writes through a reference it was given *)
+| CallerWrite.                  (* the caller overwrites the vector it passed to calculate() *)
 
 Definition field_eqb (a b : field) : bool :=
-  match a, b with FObj, FObj | FCon, FCon | FInfo, FInfo => true | _, _ => false end.
+  match a, b with FObj, FObj | FCon, FCon | FInfo, FInfo | FVar, FVar | FPert, FPert => true | _, _ => false end.
 Definition ref_eqb (x y : ref) : bool :=
   match x, y with
   | EvalArr f, EvalArr g => field_eqb f g
+  | CallerVec, CallerVec => true
   | Trans c f, Trans d g => field_eqb f g && Nat.eqb c d
-  | Piece c f b, Piece d g e | Work c f b, Work d g e | Shaped c f b, Shaped d g e | Res c f b, Res d g e =>
+  | Piece c f b, Piece d g e | Work c f b, Work d g e | Shaped c f b, Shaped d g e | Res c f b, Res d g e
+  | TPiece c f b, TPiece d g e | TRes c f b, TRes d g e =>
       field_eqb f g && Nat.eqb c d && Nat.eqb b e
+  | Pert c, Pert d | Req c, Req d => Nat.eqb c d
   | _, _ => false
   end.
 Definition obj_owner (o : obj) : owner := match o with EvalObj => Evaluator | TransObj _ => Ropt end.
@@ -49,9 +64,14 @@ Definition obj_owner (o : obj) : owner := match o with EvalObj => Evaluator | Tr
 Definition buf := (ref * owner)%type.
 Definition env := ref -> option buf.
 Definition upd (e : env) (r : ref) (b : buf) : env := fun r' => if ref_eqb r r' then Some b else e r'.
-(* the evaluator's arrays exist before ropt runs; an unbound reference is treated as evaluator memory
-   (worst case), so a program that used one would show up as a foreign write *)
-Definition init : env := fun r => match r with EvalArr f => Some (EvalArr f, Evaluator) | _ => None end.
+(* the evaluator's arrays and the caller's vector exist before ropt runs; an unbound reference is treated
+   as evaluator memory (worst case), so a program that used one would show up as a foreign write *)
+Definition init : env :=
+  fun r => match r with
+           | EvalArr f => Some (EvalArr f, Evaluator)
+           | CallerVec => Some (CallerVec, Caller)
+           | _ => None
+           end.
 Definition look (e : env) (r : ref) : buf := match e r with Some b => b | None => (r, Evaluator) end.
 
 Inductive event :=
@@ -65,21 +85,35 @@ Fixpoint run (e : env) (ops : list op) : list event :=
   | Copy _ dst :: t | Fresh _ dst :: t => run (upd e dst (dst, Ropt)) t
   | View src dst :: t => run (upd e dst (look e src)) t
   | WriteRows a :: t => EWrite Ropt (look e a) :: run e t
-  | NewObj _ :: t => run e t
+  | NewObj _ :: t | GiveEval _ :: t => run e t
   | SetAttr o f :: t => EAttr o f :: run e t
   | Deliver a :: t => EDeliver (look e a) :: run e t
   | EvalWrite f :: t => EWrite Evaluator (look e (EvalArr f)) :: run e t
+  | EvalWriteRef a :: t => EWrite Evaluator (look e a) :: run e t
+  | CallerWrite :: t => EWrite Caller (look e CallerVec) :: run e t
   end.
 
 (* ---- the programs ----------------------------------------------------------------------------- *)
-(* the defects repaired by d6c1d61 / daee55f / 61339ec as switches, so that the analysis is seen to detect them *)
-Record variant := { bug_setattr : bool; bug_nan : bool; bug_info : bool }.
-Definition head : variant := {| bug_setattr := false; bug_nan := false; bug_info := false |}.
+(* the defects repaired by d6c1d61 / daee55f / 61339ec as switches, so that the analysis is seen to detect
+   them; bug_var = "the variables are stored as they came" (what _immutable_copy prevents) *)
+Record variant := { bug_setattr : bool; bug_nan : bool; bug_info : bool; bug_var : bool }.
+Definition head : variant := {| bug_setattr := false; bug_nan := false; bug_info := false; bug_var := false |}.
 
 Inductive shape := SFun (B : nat) | SGrad | SBoth.
-Record params := { p_shape : shape; p_con : bool; p_tr_obj : bool; p_tr_con : bool }.
+(* p_tr_*: a transform of that kind is configured; p_user: the results are also delivered as user-domain
+   copies (transform_from_optimizer, what the optimizer / evaluator steps hand to event handlers) *)
+Record params := { p_shape : shape; p_con : bool; p_tr_obj : bool; p_tr_con : bool; p_tr_var : bool; p_user : bool }.
 
 Definition cond {A} (b : bool) (l : list A) : list A := if b then l else [].
+
+(* the variable matrix of the request: np.repeat / np.vstack allocate; a gradient-only request hands out
+   a reshaped view of the perturbed variables unless a variable transform makes a new array *)
+Definition request_ops (c : nat) (p : params) : list op :=
+  match p_shape p with
+  | SFun _ => [Fresh CallerVec (Req c)]
+  | SGrad => [Fresh CallerVec (Pert c); (if p_tr_var p then Fresh else View) (Pert c) (Req c)]
+  | SBoth => [Fresh CallerVec (Pert c); Fresh (Pert c) (Req c)]
+  end ++ [GiveEval (Req c)].
 
 (* _transform_evaluator_result (variant bug_setattr: the code before daee55f) *)
 Definition transform_ops (v : variant) (c : nat) (p : params) : list op :=
@@ -96,9 +130,29 @@ Definition propagate_ops (v : variant) (c : nat) (p : params) (b : nat) : list o
   [Copy (Piece c FObj b) (Work c FObj b); WriteRows (Work c FObj b)] ++
   cond (p_con p) [(if bug_nan v then View else Copy) (Piece c FCon b) (Work c FCon b); WriteRows (Work c FCon b)].
 
+(* is block b of a call of this shape a GradientEvaluations? *)
+Definition grad_block (s : shape) (b : nat) : bool :=
+  match s with SFun _ => false | SGrad => true | SBoth => Nat.eqb b 1 end.
+
+(* the fields of block b *)
+Definition block_fields (p : params) (b : nat) : list field :=
+  [FVar] ++ cond (grad_block (p_shape p) b) [FPert] ++ [FObj] ++ cond (p_con p) [FCon] ++ [FInfo].
+
+Definition transformed (p : params) (f : field) : bool :=
+  match f with FObj => p_tr_obj p | FCon => p_tr_con p | FVar | FPert => p_tr_var p | FInfo => false end.
+
+(* transform_from_optimizer of block b: every field is either passed on or recomputed, and the constructor
+   of the new *Evaluations object copies whatever it gets *)
+Definition user_ops (c : nat) (p : params) (b : nat) : list op :=
+  flat_map (fun f => [(if transformed p f then Fresh else View) (Res c f b) (TPiece c f b);
+                      Copy (TPiece c f b) (TRes c f b); Deliver (TRes c f b)]) (block_fields p b).
+
 (* one block: slice, propagate, reshape, and the copies made by *Evaluations.__post_init__
    (variant bug_info: before 61339ec the evaluation_info arrays were stored as they came) *)
 Definition block_ops (v : variant) (c : nat) (p : params) (b : nat) : list op :=
+  [View CallerVec (Piece c FVar b);
+   (if bug_var v then View else Copy) (Piece c FVar b) (Res c FVar b); Deliver (Res c FVar b)] ++
+  cond (grad_block (p_shape p) b) [Copy (Pert c) (Res c FPert b); Deliver (Res c FPert b)] ++
   [View (Trans c FObj) (Piece c FObj b)] ++ cond (p_con p) [View (Trans c FCon) (Piece c FCon b)] ++
   [View (Trans c FInfo) (Piece c FInfo b)] ++
   propagate_ops v c p b ++
@@ -106,36 +160,38 @@ Definition block_ops (v : variant) (c : nat) (p : params) (b : nat) : list op :=
   [View (Piece c FInfo b) (Shaped c FInfo b)] ++
   [Copy (Shaped c FObj b) (Res c FObj b); Deliver (Res c FObj b)] ++
   cond (p_con p) [Copy (Shaped c FCon b) (Res c FCon b); Deliver (Res c FCon b)] ++
-  [(if bug_info v then View else Copy) (Shaped c FInfo b) (Res c FInfo b); Deliver (Res c FInfo b)].
+  [(if bug_info v then View else Copy) (Shaped c FInfo b) (Res c FInfo b); Deliver (Res c FInfo b)] ++
+  cond (p_user p) (user_ops c p b).
 
 Definition blocks (s : shape) : list nat :=
   match s with SFun B => seq 0 B | SGrad => [0] | SBoth => [0; 1] end.
 
 (* one calculate() call: _get_function_results / _get_gradient_results / _get_function_and_gradient_results *)
 Definition call_ops (v : variant) (c : nat) (p : params) : list op :=
-  transform_ops v c p ++ flat_map (block_ops v c p) (blocks (p_shape p)).
+  request_ops c p ++ transform_ops v c p ++ flat_map (block_ops v c p) (blocks (p_shape p)).
 
-(* a history: after every call the evaluator may overwrite all of its buffers (memoising evaluators
-   that reuse arrays) *)
-Definition reuse_ops : list op := [EvalWrite FObj; EvalWrite FCon; EvalWrite FInfo].
+(* a history: after every call the evaluator may overwrite all of its buffers (memoising evaluators that
+   reuse arrays) and every variable matrix it was ever handed, and the caller may overwrite its vector *)
+Definition reuse_ops (c : nat) : list op :=
+  [EvalWrite FObj; EvalWrite FCon; EvalWrite FInfo] ++ map (fun c' => EvalWriteRef (Req c')) (seq 0 (S c)) ++ [CallerWrite].
 Fixpoint history_ops (v : variant) (c : nat) (ps : list params) : list op :=
   match ps with
   | [] => []
-  | p :: t => call_ops v c p ++ reuse_ops ++ history_ops v (S c) t
+  | p :: t => call_ops v c p ++ reuse_ops c ++ history_ops v (S c) t
   end.
 
 (* ---- what the monitor looks for --------------------------------------------------------------- *)
-Definition is_res (r : ref) : bool := match r with Res _ _ _ => true | _ => false end.
-Definition is_evaluator (o : owner) : bool := match o with Evaluator => true | Ropt => false end.
+Definition is_evaluator (o : owner) : bool := match o with Evaluator => true | _ => false end.
+Definition is_ropt (o : owner) : bool := match o with Ropt => true | _ => false end.
 
-(* writes by ropt into evaluator-owned buffers, attribute assignments on the evaluator's object,
-   delivered arrays that live in evaluator memory *)
+(* writes by ropt into buffers it does not own, attribute assignments on the evaluator's object,
+   delivered arrays that live in somebody else's memory *)
 Definition foreign (ev : event) : bool :=
   match ev with
-  | EWrite Ropt (_, o) => is_evaluator o
-  | EWrite Evaluator _ => false
+  | EWrite Ropt (_, o) => negb (is_ropt o)
+  | EWrite _ _ => false
   | EAttr o _ => is_evaluator (obj_owner o)
-  | EDeliver (_, o) => is_evaluator o
+  | EDeliver (_, o) => negb (is_ropt o)
   end.
 Definition foreign_events (evs : list event) : list event := filter foreign evs.
 
@@ -158,7 +214,11 @@ Definition code_eqb (a b : code) : bool :=
   | _, _ => false
   end.
 Definition buf_field (b : buf) : field :=
-  match fst b with EvalArr f | Trans _ f | Piece _ f _ | Work _ f _ | Shaped _ f _ | Res _ f _ => f end.
+  match fst b with
+  | EvalArr f | Trans _ f | Piece _ f _ | Work _ f _ | Shaped _ f _ | Res _ f _ | TPiece _ f _ | TRes _ f _ => f
+  | CallerVec | Req _ => FVar
+  | Pert _ => FPert
+  end.
 Definition code_of (ev : event) : code :=
   match ev with
   | EWrite _ b => CBufferChanged (buf_field b)
